@@ -173,8 +173,8 @@ Lemma breaking_witness_sound e s v : breaking_witness e = Some (s, v) ->
 Proof.
   unfold breaking_witness. intros H. apply find_some in H as [_ H]. unfold breaks_getter_on in H. cbn [fst snd] in H.
   destruct (run (e_set e) v s) as [s' [u|err]]; [discriminate|]. apply andb_true_iff in H as [H1 H2].
-  destruct (eval (e_get e) s) as [x|]; [|discriminate H1]. destruct (eval (e_get e) s') as [y|er]; [discriminate H2|].
-  exists s', err, x. split; [reflexivity|]. split; [reflexivity|]. eauto.
+  destruct (eval (e_get e) s) as [x|] eqn:E1; [|discriminate H1]. destruct (eval (e_get e) s') as [y|er] eqn:E2; [discriminate H2|].
+  exists s', err, x. split; [reflexivity|]. split; [reflexivity|]. exists er. exact E2.
 Qed.
 
 (** recorded findings are real: every recorded Class.name has a model witness *)
